@@ -39,6 +39,7 @@ func init() {
 			{Name: "mutations2", Run: runMutations2, ThoroughOnly: true},
 			{Name: "valid", Run: runValid},
 			{Name: "pairs", Run: runPairs},
+			{Name: "noin", Run: runNoIn},
 			{Name: "literals", Run: runLiterals},
 			{Name: "earlyerrors", Run: runEarlyErrors},
 		},
